@@ -331,6 +331,26 @@ theorem encLeaf_decode (t : Table) (s k b : Nat) (h : node t s = encLeaf k b) (h
   rw [Nat.mul_comm k 256]
   constructor <;> omega
 
+/-- what the traversal leaves behind: the forest's inner nodes, and in every symbol's entry the code
+of a root path -/
+theorem dfs_valid (T t : Table) (hT1 : T.size = 513) (hT2 : InnerBelow T) (hT3 : Covered T)
+    (hdfs : dfs T 4096 [] 0 true = .ok t) :
+    SameInner t T ∧ ∀ s, s < NUM_SYMBOLS → Valid T t s := by
+  have e4096 : (4096 : Nat) = 4095 + 1 := rfl
+  rw [e4096, dfs_first] at hdfs
+  have hsameT : SameInner T T := ⟨rfl, fun _ _ => rfl⟩
+  obtain ⟨T1, f1, v, s1, r⟩ := assignD_visit T hT1 hT2 513 ROOT_IDX (by decide) (by decide)
+    T 32 4095 [] 0 t hsameT (by decide) (by decide) hdfs
+  have ht : t = T1 := by
+    cases f1 with
+    | zero => simp [dfs] at r
+    | succ f2 => rw [dfs_pop_nil] at r; cases r; rfl
+  subst ht
+  obtain ⟨p1, _, p3⟩ := visitSpec_props T hT1 513 T ROOT_IDX 0 0 t v hsameT
+    ⟨by decide, rfl⟩ (by decide)
+  exact ⟨p1, fun s hs => p3 s hs (reach_root T hT1 hT2 hT3 512 s (by omega)
+    (by simp only [NUM_SYMBOLS] at hs; omega))⟩
+
 theorem fromFrequencies_wellFormed (f : List Nat) (t : Table) (h : fromFrequencies f = .ok t) :
     WellFormed t := by
   have hinner := fromFrequencies_inner f t h
